@@ -298,3 +298,6 @@ func BE64(b []byte) uint64 {
 	}
 	return v
 }
+
+// GuardAlt: like Guard/GuardObj, but every writer also holds the plain mutex alt, so reads under alt alone are race-free.
+func GuardAlt(x interface{}, mu interface{}, alt interface{}, what string) {}
